@@ -444,9 +444,9 @@ def run(tier: str) -> int:
         check_case(ck, c, ans, "forEach-item-error")
     # targeted (second round of seeded changes): one Koreo name under several kinds in a refSwitch; a forEach refSwitch
     # whose switchOn reads steps.*; Ok steps with falsy values that publish state
-    for tag, g, nq, nt in (("shared-name-switch", gen_wf.gen_shared_name_switch_case, 40, 400),
-                           ("forEach-switch-on-steps", gen_wf.gen_foreach_switch_steps_case, 40, 400),
-                           ("falsy-value-state", gen_wf.gen_falsy_state_case, 40, 400)):
+    for tag, g, nq, nt in (("shared-name-switch", gen_wf.gen_shared_name_switch_case, 30, 400),
+                           ("forEach-switch-on-steps", gen_wf.gen_foreach_switch_steps_case, 30, 400),
+                           ("falsy-value-state", gen_wf.gen_falsy_state_case, 30, 400)):
         rt = rng("c01-" + tag)
         xs = [g(rt) for _ in range(nq if tier == "quick" else nt)]
         try:
